@@ -73,15 +73,50 @@ for (L, RP, MP) in ((8, 5, 3), (16, 12, 4), (32, 31, 16)):
 for (n1, n2, cut, q) in ((2, 2, 0, True), (2, 2, 3, True), (2, 2, 1, False), (2, 2, 4, False), (3, 2, 0, False), (3, 2, 4, False), (3, 2, 5, False), (2, 3, 0, False), (1, 1, 0, True), (1, 1, 2, False)):
     # depth-2 coroutine nest (read_message -> read_from_socket): no solver verdict (DESIGN 12.1); kept for the native selftest
     add("C01", "p01::recv_frames_%d_%d_c%d" % (n1, n2, cut), (), 2400, 12,
-        body="crate::p01::recv_frames::<%d, %d, %d>" % (n1, n2, cut), unwind=12,
+        body="crate::p01::recv_frames::<u8, %d, %d, %d>" % (n1, n2, cut), unwind=12,
         inputs="stream F1 NUL F2 NUL, F1 = %d and F2 = %d arbitrary non-NUL bytes, %s, then end of stream; three receives of u8" % (n1, n2, "one read" if cut == 0 else "cut into two reads after %d bytes" % cut),
         bound="end to end through read_message::<u8> (transport read, frame boundary, serde_json decode) on 2 frames of <= 3 bytes, small build", role="recv_frames")
 
 for (n1, n2, q) in ((1, 1, True), (2, 2, True), (3, 2, False), (2, 3, False), (3, 3, False)):
     add("C01", "p01::recv_buffered_%d_%d" % (n1, n2), (), 2400, 12,
-        body="crate::p01::recv_buffered::<%d, %d>" % (n1, n2), unwind=18,
+        body="crate::p01::recv_buffered::<u8, %d, %d>" % (n1, n2), unwind=18,
         inputs="two frames F1 NUL F2 NUL already buffered (F1 = %d, F2 = %d arbitrary non-NUL bytes) behind one consumed byte; two receives of u8 through read_message" % (n1, n2),
         bound="read_message::<u8> twice on a pre-loaded buffer (frame boundary, serde_json decode, cursor update), small build", role="recv_buffered")
+# Layer 2 by the solver: the same bodies with decoders that keep serde_json's number parser (f64 path) out of the formula.
+for (dec, decname, what) in (("Skip", "skip", "decoder that consumes nothing (verdict = frame is all JSON whitespace)"), ("Null", "null", "decoder for the literal null")):
+    for (mp, n1, more, q) in ((1, 1, 0, True), (1, 1, 1, True), (1, 2, 0, False), (1, 2, 2, True), (3, 3, 0, False), (3, 3, 1, True), (6, 2, 1, False), (9, 4, 0, True), (9, 4, 3, False), (9, 5, 1, True), (12, 6, 0, False), (1, 7, 2, False)):
+        if dec == "Null" and n1 < 4:
+            continue
+        add("C01", "p01::recv_step_%s_m%02d_n%d_r%d" % (decname, mp, n1, more), (Q if q else T) if dec == "Skip" else (), 900, 10, est_gb=6,
+            body="crate::p01::recv_step::<crate::p01::%s, %d, %d, %d>" % (dec, mp, n1, more), unwind=26,
+            inputs="buffered state msg_pos=%d: frame of %d arbitrary non-NUL bytes, NUL, %s; %s" % (mp, n1, "then the sentinel (last frame)" if more == 0 else "then %d arbitrary non-NUL bytes, NUL, sentinel (another frame follows)" % more, what),
+            bound="one read_message call on a pre-loaded buffer (frame boundary, decode of exactly the frame, cursor update, bytes intact), small build", role="recv_step")
+    for (n1, more, q) in ((1, 0, True), (1, 1, True), (2, 0, False), (3, 2, True), (4, 0, False), (4, 2, False), (6, 0, False), (5, 1, False)):
+        if dec == "Null" and n1 < 4:
+            continue
+        add("C01", "p01::recv_fresh_%s_n%d_r%d" % (decname, n1, more), (Q if q else T) if dec == "Skip" else (), 1200, 10, est_gb=6,
+            body="crate::p01::recv_fresh::<crate::p01::%s, %d, %d>" % (dec, n1, more), unwind=26,
+            inputs="fresh connection; the transport delivers in one read a frame of %d arbitrary non-NUL bytes, NUL%s; %s" % (n1, "" if more == 0 else ", then %d arbitrary non-NUL bytes and a NUL" % more, what),
+            bound="one read_message call from the initial state through one transport read (layers 1 and 2 composed), small build", role="recv_fresh")
+    for (n1, n2, q) in ((1, 1, True), (2, 2, False), (3, 2, False), (4, 4, True), (5, 4, False)):
+        if dec == "Null" and n1 < 4:
+            continue
+        add("C01", "p01::recv_buffered_%s_%d_%d" % (decname, n1, n2), (), 1200, 10,   # two receives in one formula: > 10 GB (native selftest only)
+            body="crate::p01::recv_buffered::<crate::p01::%s, %d, %d>" % (dec, n1, n2), unwind=18,
+            inputs="two frames F1 NUL F2 NUL already buffered (F1 = %d, F2 = %d arbitrary non-NUL bytes) behind one consumed byte; two receives through read_message; %s" % (n1, n2, what),
+            bound="read_message twice on a pre-loaded buffer, small build", role="recv_buffered")
+    for (n1, n2, cut, q) in ((1, 1, 0, True), (2, 2, 0, False), (2, 2, 3, True), (2, 1, 1, False), (3, 2, 4, False), (3, 2, 5, False), (4, 2, 0, False), (4, 1, 6, False)):
+        if dec == "Null" and n1 < 4:
+            continue
+        add("C01", "p01::recv_frames_%s_%d_%d_c%d" % (decname, n1, n2, cut), (), 1500, 10,   # three receives: > 10 GB (native selftest only)
+            body="crate::p01::recv_frames::<crate::p01::%s, %d, %d, %d>" % (dec, n1, n2, cut), unwind=12,
+            inputs="stream F1 NUL F2 NUL, F1 = %d and F2 = %d arbitrary non-NUL bytes, %s, then end of stream; three receives; %s" % (n1, n2, "one read" if cut == 0 else "cut into two reads after %d bytes" % cut, what),
+            bound="end to end through read_message (transport read, frame boundary, decode) on 2 frames, small build", role="recv_frames")
+for (rp, n, q) in ((1, 1, False), (2, 2, True), (3, 1, False), (3, 4, True), (5, 2, False), (6, 2, False), (4, 4, False), (7, 1, False)):
+    add("C07", "p01::recv_resume_skip_r%d_n%d" % (rp, n), Q if q else T, 1500, 12, est_gb=7,
+        body="crate::p01::recv_resume::<crate::p01::Skip, %d, %d>" % (rp, n), unwind=26,
+        inputs="state left by an abandoned receive: %d arbitrary bytes buffered (may contain complete frames; last one not NUL), msg_pos=0; the transport then delivers %d arbitrary bytes ending in NUL; decoder that consumes nothing" % (rp, n),
+        bound="one read_message call resuming after a dropped receive, one transport read, small build", role="recv_resume")
 add("C01", "p01::read_init", Q, 300, 4, inputs="none (initial state of the induction)", bound="Connection::new", unwind=4)
 
 # Inbound limit, inductively: the one-step family of C01 also asserts "buffer never exceeds the limit", "overflow exactly when
@@ -115,6 +150,8 @@ for (L, P) in ((32, 12), (32, 13), (32, 29), (32, 32), (24, 24)):
 add("X00", "p01::read_probe_nopend", T, 900, 8, body="crate::p01::read_probe::<false>", unwind=10, inputs="probe", bound="probe")
 for v in range(4):
     add("X00", "p01::read_probe2_v%d" % v, T, 900, 8, body="crate::p01::read_probe2::<%d>" % v, unwind=10, inputs="probe", bound="probe")
+for v in range(3):
+    add("X00", "p01::rm_probe_v%d" % v, T, 1500, 12, body="crate::p01::rm_probe::<%d>" % v, unwind=18, inputs="probe", bound="probe")
 add("X00", "p01::read_probe_pend", T, 900, 8, body="crate::p01::read_probe::<true>", unwind=10, inputs="probe", bound="probe")
 
 # ---------------------------------------------------------------------------------------- C13
@@ -213,6 +250,13 @@ for kind, what in C02_KINDS:
                 inputs="write buffer len=%d, fill position=%d (concrete); %s" % (L, P, what),
                 bound="one operation from the concrete state (len=%d,pos=%d) of the small build (STEP=8, MAX=32)" % (L, P),
                 role=kind)
+SEND_KINDS = ["send_call of Call<Empty> with 3 symbolic flags", "send_reply of Reply<()> with symbolic continues", "send_error of an empty error object"]
+for (L, P) in ((8, 0), (16, 9), (32, 13), (32, 30), (24, 24), (32, 14)):
+    for kind in range(3):
+        add("C02", "p02::send_%s_l%d_p%02d" % (["call", "reply", "error"][kind], L, P), Q if (L, P, kind) in ((8, 0, 1), (32, 30, 0)) else T, 1500, 12, est_gb=8,
+            body="crate::p02::send_kind_at::<%d, %d, %d>" % (L, P, kind), unwind=74,
+            inputs="write buffer len=%d, fill position=%d (concrete); %s" % (L, P, SEND_KINDS[kind]),
+            bound="one send (enqueue + flush, a 2-deep coroutine nest) from the concrete state, small build", role="send_kind_at")
 add("C02", "p02::write_init", Q, 300, 4, inputs="none (initial state of the induction)", bound="Connection::new", unwind=4)
 
 
@@ -324,6 +368,10 @@ add("C05", "p05::reply_roundtrip", Q, 900, 6, build="prod", unwind=50,
 
 # ---------------------------------------------------------------------------------------- C12
 C12_M = ["ping", "add", "say", "opt", "renamed_method", "ren_param", "watch", "notify", "get_2fa_code", "ren_opt"]
+# quick tier: the instances that finish in a few minutes below 4 GB (bool/None-only argument encodings); the others (symbolic
+# three-digit numbers next to a bool: 11 GB, 7-14 min) are thorough-tier only
+C12_QUICK_CHAIN = {"ping", "renamed_method", "get_2fa_code", "opt_none", "ren_param", "watch", "ren_opt_none"}
+C12_QUICK_EXT = {"opt_none", "ren_param", "ren_opt_none"}
 C12_ARGS = "arguments symbolic within fixed-width encodings: a: u8 in 100..=255, b: bool, 1 alphanumeric ASCII char as &str; the Option argument is %s"
 for i, mname in enumerate(C12_M):
     for xs in ((False, True) if mname in ("opt", "ren_opt") else (False,)):
@@ -332,26 +380,50 @@ for i, mname in enumerate(C12_M):
         xb = "true" if xs else "false"
         # The plain async method is a 4-deep coroutine nest: its frame is compared natively only (./check --selftest);
         # tiers=() keeps the body in the native registry without ever handing it to the solver.
-        add("C12", "p12::proxy_plain_%s" % suffix, (), 1800, 10, build="mid", body="crate::p12::proxy_plain::<%d, %s>" % (i, xb), unwind=162,
-            inputs="generated method `%s` (native selftest only)" % mname, bound="native only", role="proxy_plain")
+        add("C12", "p12::proxy_plain_%s" % suffix, T, 2400, 14, build="mid", body="crate::p12::proxy_plain::<%d, %s>" % (i, xb), unwind=162,
+            inputs="generated method `%s` polled once; %s" % (mname, args), bound="one call through the generated async method (4-deep coroutine nest) up to its single write, 128/128 build", role="proxy_plain")
         if mname != "notify":
-            add("C12", "p12::proxy_chain_%s" % suffix, Q, 1200, 12, build="mid",
+            add("C12", "p12::proxy_chain_%s" % suffix, Q if suffix in C12_QUICK_CHAIN else T, 2400, 16, build="mid", est_gb=(4 if suffix in C12_QUICK_CHAIN else 12),
                 body="crate::p12::proxy_chain::<%d, %s>" % (i, xb), unwind=162,
                 inputs="generated `chain_%s(..)`; %s" % (mname, args),
                 bound="one chain of one call enqueued on a fresh connection (build with BUFFER_SIZE = MAX_BUFFER_SIZE = 128: the frame fits, the grow-and-retry loop is bounded), frame <= 80 bytes", role="proxy_chain")
         if mname not in ("notify", "watch"):
-            add("C12", "p12::proxy_ext_%s" % suffix, Q if mname in ("opt", "ren_param", "add", "ren_opt") else T, 1200, 12, build="mid",
+            add("C12", "p12::proxy_ext_%s" % suffix, Q if suffix in C12_QUICK_EXT else T, 2400, 16, build="mid", est_gb=(4 if suffix in C12_QUICK_EXT else 12),
                 body="crate::p12::proxy_ext::<%d, %s>" % (i, xb), unwind=162,
                 inputs="generated `chain_ping().%s(..)`; %s" % (mname, args),
                 bound="one chain of two calls enqueued on a fresh connection (128/128 build)", role="proxy_ext")
 
 # ---------------------------------------------------------------------------------------- C06
-add("C06", "p06::stream_counts_ready", Q, 900, 10, body="crate::p06::stream_counts::<3, false>", unwind=16,
+add("C06", "p06::stream_counts_ready", Q, 900, 10, body="crate::p06::stream_counts::<3, false>", unwind=20,
     inputs="owed reply count 0..=3 symbolic; per receive a symbolic outcome in {continuing reply, final reply (continues absent), final reply (continues=false), method error, transport error}; up to 6 receives",
     bound="real ReplyStream::poll_next polled up to 8 times; receive futures always ready")
-add("C06", "p06::stream_counts_pending", Q, 1200, 10, body="crate::p06::stream_counts::<2, true>", unwind=16,
+add("C06", "p06::stream_counts_pending", Q, 1200, 10, body="crate::p06::stream_counts::<2, true>", unwind=20,
     inputs="owed reply count 0..=2 symbolic; outcomes as above; each receive future is Pending 0 or 1 times (symbolic) before completing",
     bound="real ReplyStream::poll_next polled up to 14 times")
+
+def flagtxt(bits):
+    return "{%s%s}" % ("oneway" if bits & 1 else "", (" " if bits & 1 and bits & 2 else "") + ("more" if bits & 2 else "")) if bits else "{plain}"
+C06_CHAIN_QUICK = {(1, 0, True), (2, 1, True), (3, 5, False), (2, 2, False)}
+for n in (1, 2, 3):
+    for pfx in range(4 ** (n - 1)):
+        for send in (False, True):
+            add("C06", "p06::chain_counts_n%d_f%02d_%s" % (n, pfx, "send" if send else "enq"), Q if (n, pfx, send) in C06_CHAIN_QUICK else T, 1200, 10, build="mid",
+                body="crate::p06::chain_counts::<%d, %d, %s>" % (n, pfx, "true" if send else "false"), unwind=162,
+                inputs="chain of %d Call<Empty> on a fresh connection; flags of the first %d call(s) fixed to %s, flags (oneway, more) of the last call symbolic%s" % (
+                    n, n - 1, " ".join(flagtxt(pfx >> (2 * i) & 3) for i in range(n - 1)) or "-", "; then send() polled once and the stream polled once against a peer that never answers" if send else ""),
+                bound="real chain_call/append%s, <= 3 calls, 128/128 build" % ("/send + first poll of the reply stream" if send else ""), role="chain_counts")
+
+# ---------------------------------------------------------------------------------------- C11
+C11_SCEN = ["both replies arrive in one read", "each reply arrives in its own read (cursors reset in between)",
+            "second reply arrives in two pieces after the cursor reset", "second reply is longer than the free space: the buffer grows while the first item is held",
+            "three replies: two in one read, the third in its own read"]
+for sc in range(5):
+    # no solver verdict: serde_json's dispatch on the first byte of a frame read back from the heap buffer is not constant-folded,
+    # its number parser (f64 path) enters the formula: 12 GB / 8 min without a verdict even for one pre-loaded frame (DESIGN 12.6).
+    add("C11", "p11::borrow_across_items_s%d" % sc, (), 1500, 12,
+        body="crate::p11::borrow_across_items::<%d>" % sc, unwind=26,
+        inputs="reply frames `\"<c>\"` NUL with one symbolic letter/digit payload byte each; %s" % C11_SCEN[sc],
+        bound="real ReplyStream over real read_message/read_from_socket, 2-3 items, frames of 4-12 bytes, small build (STEP=8); decoder = one borrowed JSON string", role="borrow_across_items")
 
 # ---------------------------------------------------------------------------------------- C18
 for n in range(0, 5):
